@@ -480,7 +480,7 @@ def _root(ex):
 
 
 def _plan_bj(coll):
-    """class names of the lowered plan + partition counts (left, right) of its first BroadcastJoin node."""
+    """class names of the lowered plan + (left count, right count, broadcast side) of its BroadcastJoin node."""
     try:
         nodes = list(coll.optimize(fuse=False).expr.walk())
     except Exception:  # noqa: BLE001  (observability only; compute decides)
@@ -489,7 +489,7 @@ def _plan_bj(coll):
     for x in nodes:
         if type(x).__name__ == "BroadcastJoin":
             try:
-                bj = (x.left.npartitions, x.right.npartitions)
+                bj = (x.left.npartitions, x.right.npartitions, x.broadcast_side)
             except Exception:  # noqa: BLE001
                 bj = None
     return sorted({type(x).__name__ for x in nodes}), bj
@@ -646,8 +646,8 @@ def _merge_pred(case, f):
         flipped = False
         if f.get("broadcast-join") and npart is not None and case.get("_bj"):
             # Merge._lower repartitions the non-broadcast side to ``npartitions`` (Repartition may give fewer than
-            # asked); BroadcastJoin derives the side again from the counts it sees (read from the lowered plan)
-            bside2 = "left" if case["_bj"][0] < case["_bj"][1] else "right"
+            # asked); the side the BroadcastJoin node really uses is read from the lowered plan
+            bside2 = case["_bj"][2]
             flipped, bside = bside2 != bside, bside2
         # (``on=<index name>`` reaches the split as a name and is resolved there; left_index/right_index arrive as None)
         other_on_index = form == "ii" or (form == "ic" and bside == "right") or (form == "ci" and bside == "left")
